@@ -45,6 +45,11 @@ func (li Balances) View(limit uint64) (*RegistryBalancesView, error) {
 		tmp[i] = Uint64View(bal)
 	}
 	typ := BasicListType(common.GweiType, limit)
+	if len(li) == 0 {
+		// ztyp's FromElements builds a backing without a contents subtree for zero elements,
+		// which panics as soon as it is hashed or serialized: use the default (empty) list instead.
+		return AsRegistryBalances(typ.Default(nil), nil)
+	}
 	return AsRegistryBalances(typ.FromElements(tmp...))
 }
 
